@@ -26,7 +26,7 @@ fn run_guarded(op: &str, a: &Args) -> String {
 
 fn main() {
     let argv: Vec<String> = std::env::args().collect();
-    std::panic::set_hook(Box::new(|info| { if !QUIET.with(|q| q.get()) { eprintln!("harness panic (generator): {info}"); } }));
+    std::panic::set_hook(Box::new(|info| { if !QUIET.with(|q| q.get()) { eprintln!("harness panic (generator): {info}"); } else if std::env::var("VERIF_PANIC_MSG").is_ok() { eprintln!("panic in implementation: {info}"); } }));
     match argv.get(1).map(|s| s.as_str()) {
         Some("gen") => {
             let prop = argv[2].to_lowercase();
